@@ -15,6 +15,10 @@ class integer:
     pass
 
 
+class floating:
+    pass
+
+
 class IDtype:
     def __init__(self, name):
         self.name = name
@@ -33,13 +37,65 @@ class IDtype:
 int64 = IDtype('int64')
 
 
+class FDtype:
+    """float64 holding integer-valued finite numbers of magnitude < 2**52 (their sums / differences are exact in
+    binary64, so integer arithmetic IS the float arithmetic) or NaN (the sentinel NAN below)."""
+    name = 'float64'
+    signed = True
+
+    def __eq__(self, o):
+        return isinstance(o, FDtype)
+
+    def __hash__(self):
+        return hash('float64')
+
+
+float64 = FDtype()
+
+
+class _NaN(float):
+    """IEEE NaN as numpy treats it (a float: every ordered comparison and == is False, != is True - inherited);
+    arithmetic gives back this very object, so that ``v is NAN`` identifies it everywhere in the stub."""
+
+    def __new__(cls):
+        return float.__new__(cls, 'nan')
+
+    def __hash__(self):
+        return 0
+
+    def _nan(self, *a):
+        return self
+
+    __add__ = __radd__ = __sub__ = __rsub__ = __mul__ = __rmul__ = __truediv__ = __rtruediv__ = __pow__ = _nan
+    __neg__ = __abs__ = __pos__ = _nan
+
+    def item(self):
+        return self
+
+    def __repr__(self):
+        return 'nan'
+
+
+NAN = _NaN()
+
+
+def isnan(a):
+    if isinstance(a, VArr):
+        return VBool([v is NAN for v in a.vals])
+    return a is NAN
+
+
 def issubdtype(dt, kind):
     if kind is integer:
         return isinstance(dt, IDtype)
+    if kind is floating:
+        return isinstance(dt, FDtype)
     raise StubGap('issubdtype kind')
 
 
 def wrap(v, dt):
+    if v is NAN or isinstance(dt, FDtype):
+        return v
     bits = BITS[dt.name]
     m = 1
     for _ in range(bits):
@@ -98,6 +154,10 @@ class VArr:
         return self.vals[k]
 
     def astype(self, dt, *a, **k):
+        if isinstance(dt, FDtype) and isinstance(self.dtype, FDtype):
+            return VArr(self.vals, dt)
+        if isinstance(self.dtype, FDtype):
+            raise StubGap('cast of a float array')
         if not isinstance(dt, IDtype):
             # a real numpy integer dtype / scalar type (what ChannelItem.cast_dtype holds)
             nm = getattr(dt, 'name', None) or getattr(dt, '__name__', None)
@@ -110,6 +170,9 @@ class VArr:
         return VArr(self.vals, self.dtype)
 
     def min(self):
+        for v in self.vals:
+            if v is NAN:
+                return NAN                 # numpy: min / max of an array holding a NaN is NaN
         m = self.vals[0]
         for v in self.vals[1:]:
             if v < m:
@@ -117,6 +180,9 @@ class VArr:
         return m
 
     def max(self):
+        for v in self.vals:
+            if v is NAN:
+                return NAN
         m = self.vals[0]
         for v in self.vals[1:]:
             if v > m:
@@ -139,7 +205,7 @@ class VArr:
     # relative 1e-6 of the constant compared against, float rounding could decide either way and the outcome is the
     # arbitrary boolean TOLERANCE_ORACLE[0] (a symbolic harness argument)
     def _q(self):
-        return QArr([MedVal(v, 1) for v in self.vals])
+        return QArr([(NAN if v is NAN else MedVal(v, 1)) for v in self.vals])
 
     def __truediv__(self, o):
         return self._q() / o
@@ -154,7 +220,7 @@ class VArr:
         return self._q() ** k
 
     def __abs__(self):
-        return VArr([(v if v >= 0 else -v) for v in self.vals], self.dtype)
+        return VArr([(v if (v is NAN or v >= 0) else -v) for v in self.vals], self.dtype)
 
 
 def asarray(a, *args, **kw):
@@ -164,14 +230,21 @@ def asarray(a, *args, **kw):
 
 
 def diff(a):
-    return VArr([wrap(a.vals[i + 1] - a.vals[i], a.dtype) for i in range(len(a.vals) - 1)], a.dtype)
+    out = []
+    for i in range(len(a.vals) - 1):
+        (x, y) = (a.vals[i], a.vals[i + 1])
+        out.append(NAN if (x is NAN or y is NAN) else wrap(y - x, a.dtype))
+    return VArr(out, a.dtype)
 
 
 def unique(a):
     out = []
-    for v in sorted(a.vals):
+    fin = [v for v in a.vals if v is not NAN]
+    for v in sorted(fin):
         if not out or out[-1] != v:
             out.append(v)
+    if len(fin) != len(a.vals):
+        out.append(NAN)                    # numpy >= 1.21: all NaNs collapse into one, sorted last
     return VArr(out, a.dtype)
 
 
@@ -229,6 +302,8 @@ class MedVal:
             return 1
         return 0
 
+    # inside the band the arbitrary outcome is an arbitrary ORDER (self < o iff the oracle says so): "x < c" and
+    # "x >= c" stay complementary, as they are for any two floats
     def __lt__(self, o):
         c = self._cmp(o)
         return TOLERANCE_ORACLE[0] if c is None else c < 0
@@ -239,11 +314,11 @@ class MedVal:
 
     def __gt__(self, o):
         c = self._cmp(o)
-        return TOLERANCE_ORACLE[0] if c is None else c > 0
+        return (not TOLERANCE_ORACLE[0]) if c is None else c > 0
 
     def __ge__(self, o):
         c = self._cmp(o)
-        return TOLERANCE_ORACLE[0] if c is None else c >= 0
+        return (not TOLERANCE_ORACLE[0]) if c is None else c >= 0
 
     def __neg__(self):
         return MedVal(-self.num, self.den)
@@ -337,11 +412,11 @@ class SqVal:
 
     def __gt__(self, c):
         r = self._cmp(c)
-        return TOLERANCE_ORACLE[0] if r is None else r > 0
+        return (not TOLERANCE_ORACLE[0]) if r is None else r > 0
 
     def __ge__(self, c):
         r = self._cmp(c)
-        return TOLERANCE_ORACLE[0] if r is None else r >= 0
+        return (not TOLERANCE_ORACLE[0]) if r is None else r >= 0
 
 
 class QArr:
@@ -358,8 +433,8 @@ class QArr:
             oq = o.qs if isinstance(o, QArr) else o._q().qs
             if len(oq) != len(self.qs):
                 raise StubGap('broadcast of different lengths')
-            return QArr([f(self.qs[i], oq[i]) for i in range(len(oq))])
-        return QArr([f(q, o) for q in self.qs])
+            return QArr([(NAN if (self.qs[i] is NAN or oq[i] is NAN) else f(self.qs[i], oq[i])) for i in range(len(oq))])
+        return QArr([(NAN if (q is NAN or o is NAN) else f(q, o)) for q in self.qs])
 
     def __truediv__(self, o):
         return self._bin(o, lambda a, b: a / b)
@@ -463,6 +538,9 @@ class _Med:
 
 
 def median(a):
+    for v in a.vals:
+        if v is NAN:
+            return NAN                     # numpy: the median of an array holding a NaN is NaN (.item() -> nan)
     s = sorted(a.vals)
     n = len(s)
     if n == 0:
